@@ -64,23 +64,23 @@ def h_faults(eng, nexc, ff, pka, ligand, ffout):
             eng.check(len(written) == natoms, "output-complete", note=f"{len(written)} atom lines written for {natoms} atoms in one open/close")
 
 
-def h_charge(eng):
+def h_charge(eng, ff=0, ligand=0):
     """non-integral total charge -> error and no output; integral -> success"""
     q0, q1 = eng.real("q0"), eng.real("q1")
     eng.assume(And(q0 > -50, q0 < 50, q1 > -50, q1 < 50))
     w = flow.World(eng, "r", False, {}, [], charges=[q0, q1])
-    opts = flow.symbolic_options(eng, model=dict(clean=False, assign_only=eng.bool("assign_only"), debump=True, opt=True, drop_water=False, neutraln=False, neutralc=False), formatting=dict(whitespace=False, keep_chain=False, include_header=False, ffout=0, pdb_output=0, apbs_input=0))
+    opts = flow.symbolic_options(eng, model=dict(clean=False, assign_only=eng.bool("assign_only"), debump=True, opt=True, drop_water=False, neutraln=False, neutralc=False), formatting=dict(whitespace=False, keep_chain=False, include_header=False, ffout=0, pdb_output=0, apbs_input=0), fixed=dict(ff=ff, pka=0, ligand=ligand))
     eng.assume(And(opts["ph"] >= 0, opts["ph"] <= 14))
     exc = flow.run_driver(w, opts)
-    if isinstance(exc, RuntimeError) and opts["ff"] is None and opts["usernames"] is None:
-        return
     pq = _pqr_opens(w)
     t = q0 + q1
-    n = core.sym_round(t) if eng.symbolic else round(t)
-    dev = abs(t - n)
+    import math
+
+    frac = t - (core.SymReal(__import__("z3").ToReal(core.sym_floor(t).t)) if eng.symbolic else math.floor(t))  # in [0,1)
+    far = And(frac > 0.01, frac < 0.99)  # further than 0.01 from every integer
     eng.note(f"raised={type(exc).__name__ if exc else None} opens={len(pq)}")
-    eng.check(Implies(dev > 0.01, And(exc is not None, not pq)), "nonintegral-charge-fails", note=f"total charge deviates from an integer by more than 0.01 but the run {'succeeded' if exc is None else 'failed'} and opened the output {len(pq)} times")
-    eng.check(Implies(dev == 0, And(exc is None, len(pq) == 1)), "integral-charge-succeeds", note=f"integral total charge but run raised {type(exc).__name__ if exc else None}")
+    eng.check(Implies(far, And(exc is not None, not pq)), "nonintegral-charge-fails", note=f"total charge deviates from an integer by more than 0.01 but the run {'succeeded' if exc is None else 'failed'} and opened the output {len(pq)} times")
+    eng.check(Implies(frac == 0, And(exc is None, len(pq) == 1)), "integral-charge-succeeds", note=f"integral total charge but run raised {type(exc).__name__ if exc else None}")
 
 
 def h_options(eng):
@@ -163,7 +163,8 @@ def obligations(tier):
                         continue
                     obs.append(Obligation(f"faults-ff{ff}-pka{pka}-lig{ligand}-ffout{ffout}", h_faults, dict(nexc=2 if tier == "quick" else 6, ff=ff, pka=pka, ligand=ligand, ffout=ffout), group="faults", time_cap=3000, max_paths=400000))
     obs += [
-        Obligation("charge", h_charge, {}, group="charge", time_cap=1200),
+        Obligation("charge-ff0-lig0", h_charge, dict(ff=0, ligand=0), group="charge", time_cap=1200),
+        Obligation("charge-ff1-lig1", h_charge, dict(ff=1, ligand=1), group="charge", time_cap=1200),
         Obligation("options", h_options, {}, group="options", time_cap=1200),
     ]
     for ff in FFS:
